@@ -201,7 +201,7 @@ impl Monitor for C05 {
         vec![("miri", 1), ("schedules", tier.pick(24, 600)), ("wide", tier.pick(4, 40)), ("stacks", tier.pick(8, 200)), ("images", tier.pick(6, 120))]
     }
     fn rule(&self) -> &'static str {
-        "case = a network with every layer kind and 1..4 channels (convolution, feedback block of convolution+deconvolution, deconvolution, max-pool, five dense layers, a skip connection across the block, two skip connections sharing their source, a loop connection over a dense layer, dropout on random layers), 24..64 training samples, batch 1..32, 2 epochs with 150..300 or 500..1300 validation inputs (2..21 chunks of 64, not a multiple of 64), followed by validate() and predict_batch() on the same inputs. The identical call is executed in a 1-thread pool without delays (reference) and in dedicated rayon pools of 2, 3, 4, 7, 16, 33 and 64 threads with the delay injector armed (random 0..300 us stalls at the entry of every per-sample forward pass, two delay seeds per pool size), plus once in an 8-thread pool while 16 busy threads starve the machine, plus a repetition of the reference. Every output - per-epoch train/validation loss and accuracy, all final weights, the validate() result, every predict_batch() output in order - must be bit-identical to the reference. Evidence that schedules differed: per training group the sample->worker assignment and the order in which the per-sample tasks started, taken from the event log; distinct = distinct (case, assignment/start-order) schedules observed. stacks: the same protocol on stacks of 3..6 convolutions / deconvolutions with 1..5 input channels and 1..5 filters each (more channels than filters, as many, fewer), kernels 1 or 3, paddings 0..2 and any activation incl. soft-max per layer (consecutive layers work on intermediate tensors of equal shape with different margins), max-pool, two dense layers. wide: the same protocol on networks whose dense layers have 4096..8200 inputs or outputs. images: stacks that END in a convolution with 5..12 filters (image-shaped predictions and targets, so the objective sums over channels), trained without validation data (validate() needs a dense output layer) and evaluated by predict_batch(). Miri leg: /verif/miri under -Zmiri-many-seeds (4 seeds quick, 32 thorough): every seed must print the same bit patterns and Miri must report no undefined behaviour or data race."
+        "case = a network with every layer kind and 1..4 channels (convolution, feedback block of convolution+deconvolution, deconvolution, max-pool, five dense layers, a skip connection across the block, two skip connections sharing their source, a loop connection over a dense layer, dropout on random layers), 24..64 training samples, batch 1..32, 2 epochs with 150..300 or 500..1300 validation inputs (2..21 chunks of 64, not a multiple of 64), followed by validate() and predict_batch() on the same inputs. The identical call is executed in a 1-thread pool without delays (reference) and in dedicated rayon pools of 2, 3, 4, 7, 16, 33 and 64 threads with the delay injector armed (random 0..300 us stalls at the entry of every per-sample forward pass, two delay seeds per pool size), plus once in an 8-thread pool while 16 busy threads starve the machine, plus a repetition of the reference, plus two runs (1 and 4 threads) in which the evaluation tensors are stored elsewhere and in another order in memory while the reference vectors list them in the same logical order. Every output - per-epoch train/validation loss and accuracy, all final weights, the validate() result, every predict_batch() output in order - must be bit-identical to the reference. Evidence that schedules differed: per training group the sample->worker assignment and the order in which the per-sample tasks started, taken from the event log; distinct = distinct (case, assignment/start-order) schedules observed. stacks: the same protocol on stacks of 3..6 convolutions / deconvolutions with 1..5 input channels and 1..5 filters each (more channels than filters, as many, fewer), kernels 1 or 3, paddings 0..2 and any activation incl. soft-max per layer (consecutive layers work on intermediate tensors of equal shape with different margins), max-pool, two dense layers. wide: the same protocol on networks whose dense layers have 4096..8200 inputs or outputs. images: stacks that END in a convolution with 5..12 filters (image-shaped predictions and targets, so the objective sums over channels), trained without validation data (validate() needs a dense output layer) and evaluated by predict_batch(). Miri leg: /verif/miri under -Zmiri-many-seeds (4 seeds quick, 32 thorough): every seed must print the same bit patterns and Miri must report no undefined behaviour or data race."
     }
     fn assumptions(&self) -> Vec<&'static str> {
         vec![
@@ -294,7 +294,29 @@ impl Monitor for C05 {
         let ttags = train.tags();
         let (xr, tr) = (train.x_refs(), train.t_refs());
         let (vxr, vtr) = (eval.x_refs(), eval.t_refs());
+        // the same evaluation samples, in the same logical order, but stored elsewhere and in
+        // another order in memory (an index-shuffled or bootstrapped data set looks like this):
+        // results must not depend on where the tensors live
+        let perm: Vec<usize> = {
+            let mut p: Vec<usize> = (0..eval.x_tensors.len()).collect();
+            let mut r2 = Rng::stream(seed ^ 0x5eed, "layout", idx);
+            for i in (1..p.len()).rev() {
+                let j = r2.range(0, i);
+                p.swap(i, j);
+            }
+            p
+        };
+        let mut inv = vec![0usize; perm.len()];
+        for (pos, &logical) in perm.iter().enumerate() {
+            inv[logical] = pos;
+        }
+        let store_x: Vec<Tensor> = perm.iter().map(|&i| eval.x_tensors[i].clone()).collect();
+        let store_t: Vec<Tensor> = perm.iter().map(|&i| eval.t_tensors[i].clone()).collect();
+        let vxr_moved: Vec<&Tensor> = (0..perm.len()).map(|i| &store_x[inv[i]]).collect();
+        let vtr_moved: Vec<&Tensor> = (0..perm.len()).map(|i| &store_t[inv[i]]).collect();
+        let moved = std::cell::Cell::new(false);
         let once = |threads: usize, delay_seed: u64, delay_us: u32| -> Run {
+            let (vxr, vtr) = if moved.get() { (&vxr_moved, &vtr_moved) } else { (&vxr, &vtr) };
             let mut net: Network = match build(&cfg, Some(&params)) {
                 Ok(n) => n,
                 Err(m) => return Run { outcome: Err(format!("build: {}", m)), schedules: vec![], forwards: 0 },
@@ -306,10 +328,10 @@ impl Monitor for C05 {
                 guard(|| {
                     // (validate() needs a dense output layer: image-shaped outputs are trained
                     // without validation data and evaluated by predict_batch only)
-                    let validation: Option<(&Vec<&Tensor>, &Vec<&Tensor>, i32)> = if image_out { None } else { Some((&vxr, &vtr, 100)) };
+                    let validation: Option<(&Vec<&Tensor>, &Vec<&Tensor>, i32)> = if image_out { None } else { Some((vxr, vtr, 100)) };
                     let (tl, vl, va) = net.learn(&xr, &tr, validation, batch, 2, None);
-                    let (l, a) = if image_out { (0.0, 0.0) } else { net.validate(&vxr, &vtr, 0.1) };
-                    let pb = net.predict_batch(&vxr);
+                    let (l, a) = if image_out { (0.0, 0.0) } else { net.validate(vxr, vtr, 0.1) };
+                    let pb = net.predict_batch(vxr);
                     let mut bits: Vec<u32> = Vec::new();
                     for v in tl.iter().chain(vl.iter()).chain(va.iter()) {
                         bits.push(v.to_bits());
@@ -349,6 +371,10 @@ impl Monitor for C05 {
         out.count("forward_passes_observed", reference.forwards as u64);
         let mut runs: Vec<(String, Run)> = Vec::new();
         runs.push(("1 thread, repeated".to_string(), once(1, 0, 0)));
+        moved.set(true);
+        runs.push(("1 thread, evaluation tensors stored in another order".to_string(), once(1, 0, 0)));
+        runs.push(("4 threads, evaluation tensors stored in another order".to_string(), once(4, idx ^ 0x77, 200)));
+        moved.set(false);
         for (k, p) in POOLS.iter().enumerate() {
             for d in 0..2u64 {
                 runs.push((format!("{} threads, delay seed {}", p, d), once(*p, seed.wrapping_mul(131).wrapping_add(idx * 17 + k as u64 * 2 + d), 300)));
